@@ -21,7 +21,7 @@ Primary(k) ==
     [] k = "curves" -> X("curves", <<<<0, 29>>, <<0, 23>>, <<0, 24>>>>, <<>>, FALSE)
     [] k = "points" -> X("points", <<>>, <<0>>, FALSE)
     [] k = "ticket" -> X("ticket", <<>>, <<>>, FALSE)
-    [] k = "sigalgs" -> X("sigalgs", <<<<4, 3>>, <<4, 1>>, <<5, 1>>>>, <<>>, FALSE)
+    [] k = "sigalgs" -> X("sigalgs", <<<<4, 1>>, <<5, 1>>, <<2, 1>>>>, <<>>, FALSE)
     [] OTHER -> X(k, <<>>, <<>>, FALSE)
 
 (* content classes beyond the primary one; "bad" ones are not expressible, "noncore" ones use
@@ -36,7 +36,7 @@ Others == <<
   X("points", <<>>, <<0, 0>>, FALSE), X("points", <<>>, <<1>>, FALSE), X("points", <<>>, <<>>, FALSE),
   X("ticket", <<>>, F(1, 14), FALSE), X("ticket", <<>>, F(300, 15), FALSE), X("ticket", <<>>, F(48, 16), TRUE),
   X("ticket", <<>>, F(65531, 17), FALSE), X("ticket", <<>>, F(65535, 18), FALSE),
-  X("sigalgs", <<<<4, 1>>>>, <<>>, FALSE), X("sigalgs", <<<<6, 1>>, <<6, 3>>, <<5, 1>>, <<5, 3>>, <<4, 1>>, <<4, 3>>, <<2, 1>>>>, <<>>, FALSE),
+  X("sigalgs", <<<<4, 1>>>>, <<>>, FALSE), X("sigalgs", <<<<4, 3>>, <<4, 1>>>>, <<>>, FALSE), X("sigalgs", <<<<6, 1>>, <<6, 3>>, <<5, 1>>, <<5, 3>>, <<4, 1>>, <<4, 3>>, <<2, 1>>>>, <<>>, FALSE),
   X("sigalgs", <<<<8, 4>>>>, <<>>, FALSE), X("sigalgs", <<>>, <<>>, FALSE)
 >>
 
@@ -75,6 +75,7 @@ Special == <<
   Cfg(<<3, 3>>, "fresh", <<>>, <<>>, <<<<192, 47>>, <<18, 52>>>>, <<0>>, <<>>, <<>>, TRUE, FALSE),
   Cfg(<<3, 3>>, "fresh", <<>>, <<>>, [i \in 1..300 |-> <<(i % 200) + 1, (i * 7) % 250>>], <<0>>, <<Primary("sct")>>, <<>>, TRUE, FALSE),
   Cfg(<<3, 3>>, "fresh", <<>>, <<>>, <<<<192, 43>>, <<0, 156>>, <<192, 20>>, <<192, 47>>, <<0, 47>>>>, <<0>>, <<Primary("curves"), Primary("points")>>, <<>>, FALSE, FALSE),
+  Cfg(<<3, 3>>, "fresh", <<>>, <<>>, [i \in 1..200 |-> <<<<192, 47>>, <<0, 47>>, <<192, 43>>, <<0, 156>>, <<192, 20>>>>[(i % 5) + 1]], <<0>>, <<Primary("status")>>, <<>>, FALSE, FALSE),
   \* compression
   Cfg(<<3, 3>>, "fresh", <<>>, <<>>, BaseSuites, <<>>, <<>>, <<>>, FALSE, FALSE),
   Cfg(<<3, 3>>, "fresh", <<>>, <<>>, BaseSuites, <<1>>, <<>>, <<>>, FALSE, FALSE),
